@@ -375,4 +375,3 @@ Proof.
   rewrite main_ok_filter, K2. exact ER.
 Qed.
 
-Print Assumptions disk_kinds.
